@@ -63,13 +63,16 @@ pub fn utterances() -> Vec<Vec<String>> {
     let corpus = labels::corpus();
     let lam = labels::lambda(&corpus);
     let pick = |c: &str| lam.iter().find(|l| labels::centre(l) == c).cloned().unwrap();
-    vec![vec![pick("a")], vec![pick("k"), pick("sil")], vec![]]
+    let u1 = vec![pick("k"), pick("sil")];
+    // the same labels with time stamps (100 ns units): only meaningful when alignment is on
+    let timed: Vec<String> = u1.iter().enumerate().map(|(i, l)| format!("{} {} {}", i * 12_500, (i + 1) * 12_500, l)).collect();
+    vec![vec![pick("a")], u1, vec![], timed]
 }
 
 // ---------------------------------------------------------------------------------------------
 // HIST
 // ---------------------------------------------------------------------------------------------
-const SETTERS: usize = 5;
+const SETTERS: usize = 7;
 fn setter_act(s: usize, on: bool) -> Act {
     match (s, on) {
         (0, true) => Act::Speed(1.37),
@@ -81,7 +84,12 @@ fn setter_act(s: usize, on: bool) -> Act {
         (3, true) => Act::Msd(1, 0.5),
         (3, false) => Act::Msd(1, 0.05),
         (4, true) => Act::HalfTone(3.0),
-        (_, _) => Act::HalfTone(0.0),
+        (4, false) => Act::HalfTone(0.0),
+        (5, on) => Act::Align(on),
+        (6, true) => Act::Fperiod(5),
+        // every HIST voice is generated with frame period 2 or 3 (kind 2: 2, kind 3: 3); `engine_for_mask` and the
+        // replay both restore the voice's own value
+        (_, _) => Act::Fperiod(0),
     }
 }
 pub fn engine_for_mask_pub(base: &Engine, mask: u8) -> Engine {
@@ -95,6 +103,13 @@ fn engine_for_mask(base: &Engine, mask: u8) -> Engine {
         }
     }
     e
+}
+fn apply_setter(e: &mut Engine, base: &Engine, s: usize, on: bool) {
+    if s == 6 && !on {
+        Act::Fperiod(base.condition.get_fperiod()).apply(&mut e.condition);
+    } else {
+        setter_act(s, on).apply(&mut e.condition);
+    }
 }
 
 #[derive(Clone, Debug, PartialEq, Eq, Hash)]
@@ -131,7 +146,6 @@ pub fn replay_hist(base: &Engine, utts: &[Vec<String>], baselines: &HashMap<(u8,
     let r = catch(|| -> Result<(), String> {
         let mut e = base.clone();
         let mut mask = 0u8;
-        let fp = e.condition.get_fperiod();
         // live generators: (generator, mask at open, utterance, frames produced)
         let mut live: Vec<Option<(jbonsai::speech::SpeechGenerator, u8, usize, usize)>> = Vec::new();
         for (i, op) in hist.iter().enumerate() {
@@ -162,6 +176,7 @@ pub fn replay_hist(base: &Engine, utts: &[Vec<String>], baselines: &HashMap<(u8,
                 Op::Step(gi) => {
                     if let Some(Some((g, m, u, k))) = live.get_mut(*gi) {
                         let b = &baselines[&(*m, *u)];
+                        let fp = g.fperiod();
                         let mut buf = vec![0.0; fp];
                         let n = g.generate_step(&mut buf);
                         let total = b.len() / fp;
@@ -179,6 +194,7 @@ pub fn replay_hist(base: &Engine, utts: &[Vec<String>], baselines: &HashMap<(u8,
                     if let Some(slot) = live.get_mut(*gi) {
                         if let Some((g, m, u, k)) = slot.take() {
                             let b = &baselines[&(m, u)];
+                            let fp = g.fperiod();
                             let rest = g.generate_all();
                             if !bits_eq(&rest, &b[k * fp..]) {
                                 return Err(format!("op {} {:?}: generate_all of live generator {} after {} frames differs from the baseline suffix", i, op, gi, k));
@@ -187,12 +203,12 @@ pub fn replay_hist(base: &Engine, utts: &[Vec<String>], baselines: &HashMap<(u8,
                     }
                 }
                 Op::Set(s) => {
-                    setter_act(*s, true).apply(&mut e.condition);
+                    apply_setter(&mut e, base, *s, true);
                     mask |= 1 << s;
                     setter = true;
                 }
                 Op::Reset(s) => {
-                    setter_act(*s, false).apply(&mut e.condition);
+                    apply_setter(&mut e, base, *s, false);
                     mask &= !(1 << s);
                     setter = true;
                 }
@@ -222,7 +238,7 @@ impl Model for HistModel {
         for u in 0..self.utts.len() {
             out.push(Op::Synth(u));
         }
-        for u in 0..2 {
+        for u in [0usize, 1, 3] {
             out.push(Op::CloneSynth(u));
             if s.live < 2 {
                 out.push(Op::Open(u));
@@ -447,8 +463,107 @@ fn child_base(args: &[String]) -> i32 {
     }
 }
 
+/// (number of prefix sequences, alphabet size, max prefix length)
+fn setter_space(tier: Tier) -> (usize, usize, usize) {
+    let n1 = setter_alphabet(3).len();
+    let d = tier.pick(2usize, 3usize);
+    ((0..=d).map(|k| n1.pow(k as u32)).sum(), n1, d)
+}
+/// decode a case index into its setter prefix
+fn setter_case(tier: Tier, idx: usize) -> (Vec<Act>, usize) {
+    let alpha = setter_alphabet(3);
+    let n1 = alpha.len();
+    let (_, _, d) = setter_space(tier);
+    let mut rem = idx;
+    let mut len = 0;
+    while len <= d {
+        let cnt = n1.pow(len as u32);
+        if rem < cnt {
+            break;
+        }
+        rem -= cnt;
+        len += 1;
+    }
+    let mut seq = Vec::with_capacity(len);
+    for _ in 0..len {
+        seq.push(alpha[rem % n1].clone());
+        rem /= n1;
+    }
+    (seq, len)
+}
+fn child_setter(args: &[String]) -> i32 {
+    unsafe {
+        let lim = libc::rlimit { rlim_cur: 3 << 30, rlim_max: 3 << 30 };
+        libc::setrlimit(libc::RLIMIT_AS, &lim);
+    }
+    let tier = if args[0] == "thorough" { Tier::Thorough } else { Tier::Quick };
+    let (start, end): (usize, usize) = (args[1].parse().unwrap(), args[2].parse().unwrap());
+    let base = engine_kind(2);
+    let utts = utterances();
+    let ns = 3;
+    // two target conditions: alignment off on plain labels, alignment on on time-stamped labels; each is assigned
+    // after the prefix in forward and in reverse setter order ("order of setter calls is irrelevant")
+    let timed: Vec<String> = utts[1].iter().enumerate().map(|(i, l)| format!("{} {} {}", i * 12_500, (i + 1) * 12_500, l)).collect();
+    let mut canon_b = canonical(ns);
+    for a in canon_b.iter_mut() {
+        if matches!(a, Act::Align(_)) {
+            *a = Act::Align(true);
+        }
+    }
+    let targets: Vec<(Vec<Act>, Vec<String>)> = vec![(canonical(ns), utts[1].clone()), (canon_b, timed)];
+    let refs: Vec<(String, Vec<f64>)> = targets
+        .iter()
+        .map(|(c, u)| {
+            let fresh = with_cond(&base, c);
+            (format!("{:?}", fresh.condition), synth(&fresh, u).unwrap_or_default())
+        })
+        .collect();
+    let stdout = std::io::stdout();
+    for idx in start..end {
+        {
+            let mut o = stdout.lock();
+            let _ = writeln!(o, "S {}", idx);
+            let _ = o.flush();
+        }
+        let (seq, len) = setter_case(tier, idx);
+        let mut n = 0u64;
+        let mut bad: Option<String> = None;
+        for (ti, (canon, utt)) in targets.iter().enumerate() {
+            for reverse in [false, true] {
+                let mut e = base.clone();
+                for a in &seq {
+                    a.apply(&mut e.condition);
+                }
+                if reverse {
+                    for a in canon.iter().rev() {
+                        a.apply(&mut e.condition);
+                    }
+                } else {
+                    for a in canon {
+                        a.apply(&mut e.condition);
+                    }
+                }
+                n += 1;
+                let same_render = format!("{:?}", e.condition) == refs[ti].0;
+                // every combination is synthesised up to prefix length 1; longer prefixes on a stride (the rendering
+                // of the condition, which shows every field, is compared for all of them)
+                let do_synth = len <= 1 || (idx + ti + 2 * reverse as usize) % 5 == 0;
+                let ok = same_render && (!do_synth || synth(&e, utt).map(|w| bits_eq(&w, &refs[ti].1)).unwrap_or(false));
+                if !ok && bad.is_none() {
+                    bad = Some(format!("after {:?} followed by the target assignment ({} order, alignment {}) the engine differs from a fresh engine given only the target assignment (condition rendering equal: {})", seq, if reverse { "reverse" } else { "forward" }, ti == 1, same_render));
+                }
+            }
+        }
+        let mut o = stdout.lock();
+        let _ = writeln!(o, "R {} {} {}", idx, n, bad.unwrap_or_else(|| "-".into()).replace('\n', " "));
+        let _ = o.flush();
+    }
+    0
+}
+
 pub fn child(args: &[String]) -> i32 {
     match args[0].as_str() {
+        "c03setter" => child_setter(&args[1..]),
         "c03base" => child_base(&args[1..]),
         "c03sched" => child_sched(&args[1..]),
         _ => 2,
@@ -565,13 +680,13 @@ fn setter_alphabet(ns: usize) -> Vec<Act> {
 pub fn run(tier: Tier) -> i32 {
     let rep: &'static Report = Box::leak(Box::new(Report::new("C03", tier, "model_checking")));
     let monitor = Arc::new(HangMonitor::start(rep, "C03 call history"));
-    rep.set_rule("HIST (stateright BFS, no state merging): all call histories to the depth bound over {synthesize(u) for 3 utterances, clone+synthesize, open a generator (<= 2 live), step it, finish it, set/reset 5 condition setters} on one real engine, every output compared bit-exactly with a baseline computed by a fresh child process for (condition values, labels); SCHED: for each tuple of programs {synthesize(u1), synthesize(u2), generator(u1) stepped, clone().synthesize(u1)} on one shared engine (mel-cepstral and LSP voices with GV, postfilter and mixed excitation; an interpolated 2-voice set), every schedule with <= B preemptions at verif-hooks sites under a controlled scheduler (one agent runs at a time), outputs compared with solo baselines; all sequences of <= 2/3 setter calls followed by one canonical assignment vs a fresh engine; compile-time Send/Sync/Clone assertion; non-trivial = history/schedule with at least two synthesis operations");
+    rep.set_rule("HIST (stateright BFS, no state merging): all call histories to the depth bound over {synthesize(u) for 4 utterances (one of them time-stamped), clone+synthesize, open a generator (<= 2 live), step it, finish it, set/reset 7 condition setters incl. alignment and frame period} on one real engine, every output compared bit-exactly with a baseline computed by a fresh child process for (condition values, labels); SCHED: for each tuple of programs {synthesize(u1), synthesize(u2), generator(u1) stepped, clone().synthesize(u1)} on one shared engine (mel-cepstral and LSP voices with GV, postfilter and mixed excitation; an interpolated 2-voice set), every schedule with <= B preemptions at verif-hooks sites under a controlled scheduler (one agent runs at a time), outputs compared with solo baselines; all sequences of <= 2/3 setter calls followed by one canonical assignment vs a fresh engine; compile-time Send/Sync/Clone assertion; non-trivial = history/schedule with at least two synthesis operations");
     rep.assume("preemptions only at verif-hooks sites (fine: every site, impulse-response loop thinned to every 191st iteration; coarse: stage boundaries); at most 3 controlled threads and 2 preemptions; weak-memory effects are not modelled");
     static_part(rep);
     source_scan(rep);
     let utts = utterances();
     // ---------- HIST ----------
-    let masks: Vec<u8> = (0..(1u8 << SETTERS)).collect();
+    let masks: Vec<u8> = (0..(1u16 << SETTERS)).map(|m| m as u8).collect();
     let depth = tier.pick(3usize, 4usize);
     for kind in [2usize, 3] {
         let base = engine_kind(kind);
@@ -608,7 +723,7 @@ pub fn run(tier: Tier) -> i32 {
             rep.guard(distinct_base.len() > 8, "baselines hardly differ: the setters do not influence the output");
             for (_n, path) in checker.discoveries() {
                 let last = path.last_state().clone();
-                let what = last.bad.clone().unwrap_or_default();
+                let what = last.bad.clone().unwrap_or_else(|| "an output along this history differed from its fresh-process baseline when the explorer first executed it, but not when stateright re-executed the path on another thread to report it: the result depends on hidden per-thread or per-process state".to_string());
                 let key = if what.contains("panic") { "hist-panic" } else if what.contains("changed the engine's condition") { "hist-condition-changed" } else if what.contains("clone") { "hist-clone" } else if what.contains("generator") { "hist-generator" } else { "hist-repeat" };
                 rep.violation(key, format!("{} :: history {:?}", what, last.hist), json!({"part": "hist", "voice_kind": kind, "history": last.hist.iter().map(|o| format!("{:?}", o)).collect::<Vec<_>>()}));
             }
@@ -619,51 +734,39 @@ pub fn run(tier: Tier) -> i32 {
         }
     }
     rep.sample(json!({"history": ["Set(1)", "Synth(0)", "Reset(1)", "Synth(0)"], "voice": voice_cfg(2).describe()}));
-    // ---------- setter histories ----------
+    // ---------- setter histories (in child processes: a stale derived value can ask for absurd amounts of memory) ----------
     {
-        let base = engine_kind(2);
-        let ns = 3;
-        let canon = canonical(ns);
-        let fresh = with_cond(&base, &canon);
-        let want = synth(&fresh, &utts[1]).unwrap_or_default();
-        let render = format!("{:?}", fresh.condition);
-        let alpha = setter_alphabet(ns);
-        let d = tier.pick(2usize, 3usize);
-        let total: usize = (0..=d).map(|k| alpha.len().pow(k as u32)).sum();
-        rep.note("setter_histories", json!({"alphabet": alpha.len(), "max_prefix_length": d, "sequences": total}));
-        let n1 = alpha.len();
-        par_for(total, 256, |idx| {
-            // decode idx into a sequence of length 0..=d
-            let mut rem = idx;
-            let mut len = 0;
-            while len <= d {
-                let cnt = n1.pow(len as u32);
-                if rem < cnt {
-                    break;
-                }
-                rem -= cnt;
-                len += 1;
-            }
-            let mut seq = Vec::with_capacity(len);
-            for _ in 0..len {
-                seq.push(alpha[rem % n1].clone());
-                rem /= n1;
-            }
-            let mut e = base.clone();
-            for a in &seq {
-                a.apply(&mut e.condition);
-            }
-            for a in &canon {
-                a.apply(&mut e.condition);
-            }
-            rep.eval(1);
-            rep.traces.fetch_add(1, Ordering::Relaxed);
-            let same_render = format!("{:?}", e.condition) == render;
-            // synthesising every sequence is affordable on the tiny voice only up to length 2
-            let w = if len <= 2 || idx % 7 == 0 { synth(&e, &utts[1]).ok() } else { None };
-            let ok = same_render && w.as_ref().map(|w| bits_eq(w, &want)).unwrap_or(true);
-            if !ok {
-                rep.violation("setter-history", format!("after {:?} followed by the canonical assignment the engine differs from a fresh engine given only the canonical assignment (condition equal: {})", seq, same_render), json!({"part": "setter-history", "prefix": acts_json(&seq), "canonical": acts_json(&canon)}));
+        let (total, nalpha, d) = setter_space(tier);
+        rep.note("setter_histories", json!({"alphabet": nalpha, "max_prefix_length": d, "sequences": total, "targets": 2, "assignment_orders": ["forward", "reverse"]}));
+        let chunks = 16usize;
+        let per = total.div_ceil(chunks);
+        let ranges: Vec<(usize, usize)> = (0..chunks).map(|c| (c * per, ((c + 1) * per).min(total))).filter(|r| r.0 < r.1).collect();
+        let tier_name = tier.name().to_string();
+        par_for(ranges.len(), 1, |ri| {
+            let (a, b) = ranges[ri];
+            let r = run_isolated(
+                &["c03setter".to_string(), tier_name.clone()],
+                a,
+                b,
+                60,
+                &|_i, text| {
+                    // "<cases> <bad description or ->"
+                    let mut it = text.splitn(2, ' ');
+                    let n: u64 = it.next().and_then(|x| x.parse().ok()).unwrap_or(0);
+                    rep.eval(n);
+                    rep.traces.fetch_add(n, Ordering::Relaxed);
+                    let rest = it.next().unwrap_or("-");
+                    if rest != "-" {
+                        rep.violation("setter-history", rest.to_string(), json!({"part": "setter-history", "what": rest}));
+                    }
+                },
+                &|i, why| {
+                    let (seq, _) = setter_case(tier, i);
+                    rep.violation("setter-history-crash", format!("the process {} while synthesizing after the setter prefix {:?} followed by a target assignment", why, seq), json!({"part": "setter-history", "prefix": acts_json(&seq), "index": i}));
+                },
+            );
+            if let Err(e) = r {
+                rep.guard(false, &format!("setter-history child: {}", e));
             }
         });
     }
